@@ -105,10 +105,14 @@ Proof. exact separators_example. Qed.
 
 
 (* array literals: one separator kind -> the flat list of the item values, for any number of items that are arbitrary
-   expressions (two-row literals: the finite cases of C05_array_literals) *)
+   expressions and a literal with ";" between two rows of at least two items separated by "," or "\" is the list of the two rows *)
 Theorem C05_array_is_flat_list : forall h s sp items vs evs, s <> [] -> lex s = LexOk (xtoks (XArr sp items)) -> xwp (XArr sp items) ->
   xvals (xval h) items = (ROk vs, evs) -> parse_formula h s = (PResult (VList vs), evs).
 Proof. exact array_literal_parsed. Qed.
+
+Theorem C05_array_two_rows : forall h s rs r1 r2 a ea b eb, s <> [] -> lex s = LexOk (xtoks (XArr2 rs r1 r2)) -> xwp (XArr2 rs r1 r2) ->
+  xvals (xval h) r1 = (ROk a, ea) -> xvals (xval h) r2 = (ROk b, eb) -> parse_formula h s = (PResult (VList [VList a; VList b]), ea ++ eb).
+Proof. exact array_two_rows_parsed. Qed.
 
 Print Assumptions C05_integer_literal.
 Print Assumptions C05_decimal_value.
@@ -124,3 +128,4 @@ Print Assumptions C05_whitespace_anywhere.
 Print Assumptions C05_local_conditions_suffice.
 Print Assumptions C05_separators_never_change_outcome.
 Print Assumptions C05_array_is_flat_list.
+Print Assumptions C05_array_two_rows.
